@@ -503,6 +503,12 @@ pub struct KnownFinding {
 }
 
 pub fn load_known_findings() -> Vec<KnownFinding> {
+    load_known_findings_for(None)
+}
+
+/// Loads the entries of one property only (cheap pre-filter on the raw line, so
+/// that slow interpreters such as Miri do not parse the whole file).
+pub fn load_known_findings_for(property: Option<&str>) -> Vec<KnownFinding> {
     let path = format!("{}/known_findings.jsonl", VERIF_DIR);
     let mut v = vec![];
     if let Ok(s) = std::fs::read_to_string(path) {
@@ -510,6 +516,11 @@ pub fn load_known_findings() -> Vec<KnownFinding> {
             let line = line.trim();
             if line.is_empty() || line.starts_with('#') {
                 continue;
+            }
+            if let Some(p) = property {
+                if !line.contains(&format!("\"{}\"", p)) {
+                    continue;
+                }
             }
             if let Ok(j) = serde_json::from_str::<Value>(line) {
                 v.push(KnownFinding {
@@ -649,7 +660,7 @@ impl Ctx {
             seen_violation_sigs: HashSet::new(),
             known_hits: BTreeMap::new(),
             inconclusive: vec![],
-            known: load_known_findings(),
+            known: load_known_findings_for(Some(&args.id)),
             rule: String::new(),
             level: "exploration".into(),
             assumptions: vec![],
